@@ -165,6 +165,46 @@ def _shapes(ctx):
 ALL_SHAPES = ('shape::line_shape::LineShape', 'shape::molecular_shape2::MolecularShape2', 'shape::lj_shape::LJShape2')
 
 
+def _transform_by_value(f, b, adt):
+    from ..sym import SymEx, SYM, sfield
+    from ..nest import Nest
+    pn = [b.local_name(i) or 'arg%d' % i for i in b.args()]
+    if len(pn) != 2:
+        return False, 'unexpected signature'
+    sx = SymEx(f, opaque=('mul',), sym_collections=True)
+    try:
+        outs = sx.run(f.nest_form(b, yields=False), [SYM(pn[0]), SYM(pn[1])])
+    except Exception as ex:      # noqa: BLE001
+        return False, 'not evaluated: %s' % str(ex)[:60]
+    if len(outs) != 1 or sx.aborted:
+        # a push loop: evaluate with the loop read as a fill loop
+        try:
+            n = Nest(f, b, yields=False)
+            n.summarise_fill_loops()
+            rets = [bi for bi, bb in enumerate(n.b.blocks) if bb['term']['t'] == 'return' and not bb.get('cleanup')]
+            if len(rets) != 1:
+                return False, 'several returns'
+            return False, 'items are built by a loop this rule cannot evaluate'
+        except Exception:      # noqa: BLE001
+            return False, 'not evaluated'
+    r = sx.deep(outs[0].st, outs[0].ret)
+    if not (isinstance(r, tuple) and r[0] == 'struct' and r[1].replace('packing::', '') == adt):
+        return False, 'does not return a %s literal' % adt
+    it = sfield(r, 'items')
+    if not (isinstance(it, tuple) and it[0] == 'sseq'):
+        return False, 'items = %s' % (repr(it)[:80],)
+    _, base, elem, start = it
+    b0 = base
+    while isinstance(b0, tuple) and b0[0] == 'app' and b0[1].rsplit('::', 1)[-1] in ('deref', 'as_slice', 'iter', 'borrow', 'as_ref') and len(b0[2]) == 1:
+        b0 = b0[2][0]
+    if b0 != SYM(pn[0] + '.items') or start != ('num', 0):
+        return False, 'the components do not range over all of self.items (base %s, from %s)' % (repr(b0)[:40], repr(start)[:20])
+    if not (isinstance(elem, tuple) and elem[0] == 'app' and elem[1].endswith('mul') and len(elem[2]) == 2 and
+            set(map(repr, elem[2])) == {repr(SYM('$x')), repr(SYM(pn[1]))}):
+        return False, 'a component is mapped to %s, not to component * transform' % (repr(elem)[:80],)
+    return True, 'items = { x * transform | x in self.items } by value'
+
+
 def shape_transform_obligations(ctx, rule='R5', adts=ALL_SHAPES):
     """Shape::transform(&self, t) moves EVERY component by t: items.iter().map(|i| i * t).collect(), nothing dropped."""
     from ..lineage import adaptor_chain
@@ -214,6 +254,12 @@ def shape_transform_obligations(ctx, rule='R5', adts=ALL_SHAPES):
                         cap_ok = cap['o'] == 'arg' and cap['l'] == 2 and any('Transform2' in x for x in tys)
                         ok = item_ok and cap_ok
                         why = 'closure = |i| i * transform' if ok else 'the closure does not multiply its item by the transform argument'
+        if not ok:
+            # by value: the result's items are the sequence { x * transform | x in self.items }, all of them, in order —
+            # however it is built (map/collect, with_capacity + extend, a push loop)
+            okv, whyv = _transform_by_value(f, b, adt)
+            if okv:
+                ok, why = True, whyv
         rep.check(ok, rule, 'shape-transform-moves-every-component:%s' % adt, where(b), why,
                   'Shape::transform of %s does not move every component by the given transform: %s' % (adt, why))
     rep.floor(rule, 'Shape::transform impls', n, len(adts))
